@@ -47,7 +47,8 @@ def bump(idgen: Any, bumps: dict[str, int]) -> None:
 
 
 GARBAGE_KINDS = ("sym", "fun", "qty", "qty1f", "qty1", "qty0f", "vec", "cs", "calc", "conv", "solve", "float_arith",
-    "const_copy", "const_copy_dim", "clone", "common_symbols", "const_as_unit")
+    "const_copy", "const_copy_dim", "clone", "common_symbols", "const_as_unit",
+    "symbolic_wrappers", "symbolic_wrappers_rev", "thread_objects")
 
 
 def garbage(spec: Any) -> None:
@@ -122,6 +123,39 @@ def _garbage_one(i: int, kind: str, keep: list[Any]) -> None:
                 c = getattr(quantities, name, None)
                 if c is not None:
                     keep.append(convert_to(Quantity(c * 3), c))
+        elif kind in ("symbolic_wrappers", "symbolic_wrappers_rev"):
+            # Average/FiniteDifference/... around every common symbol (several of them print alike: p is momentum and
+            # pressure, h is height, thickness, ...), in catalogue order or reversed
+            import symplyphysics.symbols as common
+            from symplyphysics.core.operations import symbolic
+            syms = []
+            for sub in sorted(n for n in dir(common) if not n.startswith("_")):
+                m = getattr(common, sub)
+                for n in sorted(dir(m)) if hasattr(m, "__name__") and str(getattr(m, "__name__", "")).startswith("symplyphysics.symbols") else []:
+                    o = getattr(m, n)
+                    if isinstance(o, sympy.Symbol) and hasattr(o, "dimension"):
+                        syms.append(o)
+            for n in sorted(dir(common)):
+                o = getattr(common, n)
+                if isinstance(o, sympy.Symbol) and hasattr(o, "dimension"):
+                    syms.append(o)
+            if kind.endswith("_rev"):
+                syms.reverse()
+            for o in syms:
+                for cls in (symbolic.Average, symbolic.FiniteDifference, symbolic.ExactDifferential, symbolic.InexactDifferential):
+                    keep.append(cls(o))
+        elif kind == "thread_objects":
+            import threading
+
+            def work() -> None:
+                for j in range(60):
+                    keep.append(Quantity((j + 2) * units.second))
+                    keep.append(Symbol(f"th{j}", units.length))
+                    keep.append(Function(f"fh{j}", dimension=units.time))
+
+            th = threading.Thread(target=work)
+            th.start()
+            th.join()
         elif kind == "clone":
             from symplyphysics import clone_as_function, clone_as_symbol, symbols
             keep.append(clone_as_symbol(symbols.mass, subscript="1"))
